@@ -661,6 +661,22 @@ func ruleSniffScan(c *eng.Ctx) {
 					if cs, ok := eng.ConstString(x.Call.Args[1]); ok && cs == s && out == nil {
 						out = x.Block()
 					}
+					// the prefixes listed in a package-level table that is walked for every member
+					if out == nil {
+						for w := range eng.Slice(x.Call.Args[1], nil) {
+							g, ok := w.(*ssa.Global)
+							if !ok {
+								continue
+							}
+							if strs, ok := eng.GlobalLiteralStrings(g); ok {
+								for _, t := range strs {
+									if t == s {
+										out = x.Block()
+									}
+								}
+							}
+						}
+					}
 				}
 			}
 		})
